@@ -19,7 +19,7 @@ Import ListNotations.
 Theorem c01_shared_instance : forall s st,
   run repaired s = Ok st ->
   forall h k v, In v (field_of st h k) -> alookup (owner v) (L1 (reg st)) = Some v.
-Proof. intros s st H. exact (run_published repaired s st eq_refl H). Qed.
+Proof. intros s st H. intros h k v. exact (run_published (P:=anyk) repaired s st eq_refl H h k v I). Qed.
 
 (* ... and the by-name lookup of that component returns that same version, leaving the state alone *)
 Theorem c01_lookup_agrees : forall s st,
